@@ -388,6 +388,23 @@ func (e *exec) mkMsg(inst uint64, sender gpbft.ActorID, round uint64, ph gpbft.P
 	}
 }
 
+var bigValues = map[byte]*gpbft.ECChain{}
+
+// bigValue: a chain of the maximum length whose tipset keys have the maximum length (about 100 KiB encoded).
+func bigValue(sig byte) *gpbft.ECChain {
+	if c, ok := bigValues[sig]; ok {
+		return c
+	}
+	tc := vfix.TableCID(nil)
+	c := vfix.Chain(vfix.TipSet("g", 0, tc), string([]byte{'V', sig}), gpbft.ChainMaxLen-1, tc)
+	for i, t := range c.TipSets {
+		k := bytes.Repeat([]byte{byte(i), sig}, gpbft.TipsetKeyMaxLen/2)
+		t.Key = k
+	}
+	bigValues[sig] = c
+	return c
+}
+
 func (e *exec) apply(op string) {
 	if e.fail != "" {
 		return
@@ -397,6 +414,19 @@ func (e *exec) apply(op string) {
 		m := e.mkMsg(uint64(op[1]-'0'), gpbft.ActorID(op[2]-'0'), uint64(op[3]-'0'), phaseOf(op[4]), op[5])
 		e.published = false
 		_ = e.node.Broadcast(bg, m)
+	case 'g', 'h':
+		// g: sender 2 votes in rounds 10..20 of instance 7, each vote carrying a chain of the largest size; the log
+		// file passes its rotation size with the last one. h: that last vote is requested again, signed differently.
+		from, to, sig := uint64(10), uint64(20), byte('a')
+		if op[0] == 'h' {
+			from, sig = to, 'b'
+		}
+		for r := from; r <= to && e.fail == ""; r++ {
+			m := e.mkMsg(7, 2, r, gpbft.PREPARE_PHASE, sig)
+			m.Vote.Value = bigValue(sig)
+			e.published = false
+			_ = e.node.Broadcast(bg, m)
+		}
 	case 'r':
 		_ = e.node.Rebroadcast(gpbft.Instant{ID: uint64(op[1] - '0'), Round: uint64(op[2] - '0'), Phase: phaseOf(op[3])})
 	case 'f':
@@ -600,9 +630,26 @@ func main() {
 		budget time.Duration
 	}
 	focused := []string{"b710Pa", "b710Pb", "b810Pa", "r70P", "R", "K", "T2", "f", "F"}
-	phases := []phase{{"focused", focused, 7, 50 * time.Second}, {"full", alphabet(false), depth, 100 * time.Second}}
+	// rounds: one instance that goes through rounds 0..3 of one step, with conflicting requests for old and new
+	// rounds and restarts in between (a long instance must stay protected in all its rounds)
+	rounds := []string{"b710Pa", "b710Pb", "b711Pa", "b712Pa", "b712Pb", "b713Pa", "R", "K"}
+	phases := []phase{{"focused", focused, 7, 45 * time.Second}, {"rounds", rounds, 5, 25 * time.Second}, {"full", alphabet(false), depth, 80 * time.Second}}
 	if thorough {
-		phases = []phase{{"focused", focused, 9, 8 * time.Minute}, {"full", alphabet(true), depth, 17 * time.Minute}}
+		phases = []phase{{"focused", focused, 9, 8 * time.Minute}, {"rounds", rounds, 7, 4 * time.Minute}, {"full", alphabet(true), depth, 13 * time.Minute}}
+	}
+	// directed histories around a write-ahead-log file that grows past its rotation size (11 votes carrying
+	// 128-tipset chains with 760-byte keys), the vote that crosses the size being requested again with another
+	// signature after every kind of restart
+	for _, h := range [][]string{{"g", "R", "h"}, {"g", "b710Pa", "R", "h"}, {"g", "K", "h"}, {"g", "T2", "h"}, {"g", "R", "R", "h"}, {"g", "h"}} {
+		if chk.Violations() > 0 {
+			break
+		}
+		e := build(w, h)
+		if e.fail != "" {
+			chk.Violation(e.fp, fmt.Sprintf("history %v: %s", h, e.fail), map[string]any{"history": h})
+		}
+		e.cleanup()
+		chk.Add("directed_histories", 1)
 	}
 	var states, transitions int64
 	exhaustive := true
@@ -705,7 +752,7 @@ func main() {
 		pureFilter(chk, w, thorough)
 	}
 	_ = os.RemoveAll(root)
-	chk.Set("rule", "BFS over histories of {broadcast(instance 7|8, sender 1|2, slot (0,PREPARE)|(0,COMMIT)|(1,PREPARE), signature a|b), rebroadcast(instance, slot), arrival of the finality certificates up to instance 3 (early network) | up to instance 6 — put into the node's certificate store, handled by the production finalize goroutine (purge, trim) and skip-forward, stepped to completion —, clean restart, crash-restart from the WAL image taken at the last publish, crash in the middle of an append (torn record of 1 byte / half / all-but-one byte left in the log)} on the production runner (newRunner, Start, BroadcastMessage, RequestRebroadcast, Stop; mock clock that never advances, so the participant itself stays idle) over a real WAL directory and a real gossipsub topic; states deduplicated on (WAL content, wire set, filter + rebroadcast store, image at last publish); the pure filter is explored exhaustively (all broadcast sequences over 2 instances x 2 slots x 2 signatures to depth 6/7) against a reference and the two wire invariants")
+	chk.Set("rule", "three searches (focused: one slot, every restart/crash/certificate event, depth 7/9; rounds: rounds 0..3 of one slot with conflicting requests and restarts, depth 5/7; full alphabet) plus directed histories around a log file that grows past its rotation size with 100 KiB votes. BFS over histories of {broadcast(instance 7|8, sender 1|2, slot (0,PREPARE)|(0,COMMIT)|(1,PREPARE), signature a|b), rebroadcast(instance, slot), arrival of the finality certificates up to instance 3 (early network) | up to instance 6 — put into the node's certificate store, handled by the production finalize goroutine (purge, trim) and skip-forward, stepped to completion —, clean restart, crash-restart from the WAL image taken at the last publish, crash in the middle of an append (torn record of 1 byte / half / all-but-one byte left in the log)} on the production runner (newRunner, Start, BroadcastMessage, RequestRebroadcast, Stop; mock clock that never advances, so the participant itself stays idle) over a real WAL directory and a real gossipsub topic; states deduplicated on (WAL content, wire set, filter + rebroadcast store, image at last publish); the pure filter is explored exhaustively (all broadcast sequences over 2 instances x 2 slots x 2 signatures to depth 6/7) against a reference and the two wire invariants")
 	chk.Assume("no storage errors, no second node with the same identity on the runner path; inbound topic validator removed (outbound path under test); messages carry opaque signatures")
 	chk.Finish()
 }
